@@ -27,9 +27,42 @@ func vpArbBitList(L int) *BitList {
 	return bl
 }
 
-// vpBitAt is the reference reading of bit i of the packed words (MSB first).
+// vpBitAt is the reference reading of bit i of packed words (MSB first).
 func vpBitAt(data []int32, i int) bool {
 	return (uint32(data[i/32])>>(31-uint(i%32)))&1 == 1
+}
+
+func vpCopyWords(d []int32) []int32 {
+	c := make([]int32, len(d))
+	copy(c, d)
+	return c
+}
+
+func VP_BL_new() {
+	n := vpInt("n")
+	vpAssume(n >= 0 && n <= vpConfig("maxn"))
+	n = vpConcretize(n)
+	bl := NewBitList(n)
+	vpAssert(bl.Len() == n, "NewBitList(n) has length n")
+	vpAssert(len(bl.data)*32 >= n, "NewBitList(n) has room for n bits")
+	for k := 0; k < len(bl.data); k++ {
+		vpAssert(bl.data[k] == 0, "NewBitList(n) words are zero (padding invariant)")
+	}
+	j := vpInt("j")
+	if j >= 0 && j < n {
+		vpAssert(!bl.GetBit(j), "NewBitList(n) holds only zero bits")
+	}
+	vpCover("multiple-of-32", n%32 == 0 && n > 0)
+	vpCover("not-multiple", n%32 == 5)
+}
+
+func VP_BL_get() {
+	L := vpConfig("L")
+	bl := vpArbBitList(L)
+	j := vpInt("j")
+	vpAssume(j >= 0 && j < bl.count)
+	vpAssert(bl.GetBit(j) == vpBitAt(bl.data, j), "GetBit reads bit j MSB-first from word j/32")
+	vpCover("word-boundary", j%32 == 31)
 }
 
 func VP_BL_set() {
@@ -40,27 +73,137 @@ func VP_BL_set() {
 	j := vpInt("j")
 	v := vpBool("v")
 	vpAssume(i >= 0 && i < c)
-	vpAssume(j >= 0 && j < c)
-	old := bl.GetBit(j)
+	vpAssume(j >= 0 && j < 32*L)
+	old := vpBitAt(bl.data, j)
 	bl.SetBit(i, v)
-	got := bl.GetBit(j)
+	got := vpBitAt(bl.data, j)
 	vpAssert(bl.Len() == c, "SetBit must not change the length")
 	vpAssert(len(bl.data) == L, "SetBit must not reallocate")
 	if j == i {
-		vpAssert(got == v, "SetBit(i,v) then GetBit(i) must give v")
+		vpAssert(got == v, "SetBit(i,v) then reading bit i must give v")
+		vpAssert(bl.GetBit(i) == v, "SetBit(i,v) then GetBit(i) must give v")
 	} else {
-		vpAssert(got == old, "SetBit(i,v) must leave every other bit unchanged")
+		vpAssert(got == old, "SetBit(i,v) must leave every other bit (also the zero padding) unchanged")
 	}
 	vpCover("same-index", j == i)
 	vpCover("other-index", j != i)
 	vpCover("last-bit", i == c-1)
 }
 
-func VP_BL_get() {
+// k appended bits from an arbitrary state, across growth.
+func VP_BL_add() {
+	L := vpConfig("L")
+	k := vpConfig("k")
+	bl := vpArbBitList(L)
+	c := bl.count
+	before := vpCopyWords(bl.data)
+	bits := make([]bool, k)
+	for t := 0; t < k; t++ {
+		bits[t] = vpBool("b", t)
+	}
+	bl.AddBit(bits...)
+	vpAssert(bl.Len() == c+k, "AddBit(b1..bk) extends the length by k")
+	vpAssert(len(bl.data)*32 >= c+k, "AddBit grows the storage as needed")
+	for t := 0; t < k; t++ {
+		vpAssert(bl.GetBit(c+t) == bits[t], "appended bits appear in order at positions count..count+k-1")
+	}
+	vpCover("grew", len(bl.data) > L)
+	if L > 0 {
+		vpCover("no-growth", len(bl.data) == L)
+		vpCover("crossed-word", c%32 == 31)
+	}
+	j := vpInt("j")
+	if j >= 0 && j < c {
+		vpAssert(bl.GetBit(j) == vpBitAt(before, j), "AddBit must not disturb earlier bits")
+	}
+	// padding invariant is preserved
+	z := vpInt("z")
+	if z >= c+k && z < 32*len(bl.data) {
+		vpAssert(!vpBitAt(bl.data, z), "bits beyond the new length stay zero")
+	}
+}
+
+// AddBits / AddByte are loops over AddBit (whose step from an arbitrary state,
+// symbolic count included, is BL-add): here the count is a configuration, the
+// words and the value are symbolic.
+func VP_BL_addbits() {
+	L := vpConfig("L")
+	n := vpConfig("n")
+	bl := vpArbBitList(L)
+	vpAssume(bl.count == vpConfig("c"))
+	c := vpConfig("c")
+	bl.count = c
+	before := vpCopyWords(bl.data)
+	v := vpInt("v")
+	bl.AddBits(v, byte(n))
+	vpAssert(bl.Len() == c+n, "AddBits(v,n) extends the length by n")
+	for t := 0; t < n; t++ {
+		want := (uint64(v)>>uint(n-1-t))&1 == 1
+		vpAssert(bl.GetBit(c+t) == want, "AddBits appends the low n bits of v most significant first")
+	}
+	for j := 0; j < c; j++ {
+		vpAssert(bl.GetBit(j) == vpBitAt(before, j), "AddBits must not disturb earlier bits")
+	}
+	for z := c + n; z < 32*len(bl.data) && z < c+n+70; z++ {
+		vpAssert(!vpBitAt(bl.data, z), "bits beyond the new length stay zero")
+	}
+	vpCover("reached", true)
+}
+
+func VP_BL_addbyte() {
 	L := vpConfig("L")
 	bl := vpArbBitList(L)
+	c := bl.count
+	before := vpCopyWords(bl.data)
+	b := vpByte("b")
+	bl.AddByte(b)
+	vpAssert(bl.Len() == c+8, "AddByte extends the length by 8")
+	for t := 0; t < 8; t++ {
+		vpAssert(bl.GetBit(c+t) == ((b>>uint(7-t))&1 == 1), "AddByte appends the byte most significant bit first")
+	}
 	j := vpInt("j")
-	vpAssume(j >= 0 && j < bl.count)
-	vpAssert(bl.GetBit(j) == vpBitAt(bl.data, j), "GetBit reads bit j MSB-first from word j/32")
-	vpCover("word-boundary", j%32 == 31)
+	if j >= 0 && j < c {
+		vpAssert(bl.GetBit(j) == vpBitAt(before, j), "AddByte must not disturb earlier bits")
+	}
+}
+
+// byte views: slice and channel
+func VP_BL_bytes() {
+	L := vpConfig("L")
+	bl := vpArbBitList(L)
+	c := vpConcretize(bl.count)
+	bl.count = c
+	words := vpCopyWords(bl.data)
+	want := (c + 7) / 8
+	bs := bl.GetBytes()
+	vpAssert(len(bs) == want, "GetBytes returns ceil(len/8) bytes")
+	for j := 0; j < len(bs) && j < want; j++ {
+		var ref byte
+		for t := 0; t < 8; t++ {
+			ref <<= 1
+			if 8*j+t < c && vpBitAt(words, 8*j+t) {
+				ref |= 1
+			}
+		}
+		vpAssert(bs[j] == ref, "GetBytes packs eight bits per byte MSB first, zero padded")
+	}
+	n := 0
+	for b := range bl.IterateBytes() {
+		if n < want {
+			var ref byte
+			for t := 0; t < 8; t++ {
+				ref <<= 1
+				if 8*n+t < c && vpBitAt(words, 8*n+t) {
+					ref |= 1
+				}
+			}
+			vpAssert(b == ref, "IterateBytes yields the same bytes as the packed sequence")
+		}
+		n++
+	}
+	vpAssert(n == want, "IterateBytes yields ceil(len/8) bytes and then closes the channel")
+	if L > 0 {
+		vpCover("partial-last-byte", c%8 != 0)
+	}
+	vpCover("empty", c == 0)
 }
